@@ -46,11 +46,24 @@ Record eigvecs := mkEigvecs {
   ev_pair_len_ok : bool;
   ev_shapes_ok : bool;
   ev_kind : veckind;           (* type of right_subspaces[0] *)
-  ev_overlap : tri;            (* L^dagger R = I: numpy allclose gives Yes/No, sympy Eq may be Unknown *)
+  (* _check_biorthonormality stacks ALL right vectors and ALL left vectors and compares the full
+     overlap matrix L^dagger R with the identity (numpy allclose gives Yes/No, sympy Eq may be
+     Unknown).  The two parts of that matrix: *)
+  ev_overlap_within : tri;     (* diagonal blocks: L_i^dagger R_i = I for every subspace i *)
+  ev_overlap_cross : tri;      (* off-diagonal blocks: L_i^dagger R_j = 0 for i <> j *)
   ev_complete : bool;          (* num_vectors >= dim *)
   ev_dim_matches : bool;       (* h_0.shape[0] == right_subspaces[0].shape[0] *)
   ev_all_ndarray : bool
 }.
+
+(* the stacked comparison: definitely different as soon as one part is, equal iff both are *)
+Definition tri_and (a b : tri) : tri :=
+  match a, b with
+  | No, _ | _, No => No
+  | Yes, Yes => Yes
+  | _, _ => Unknown
+  end.
+Definition ev_overlap (ev : eigvecs) : tri := tri_and (ev_overlap_within ev) (ev_overlap_cross ev).
 
 (* zeroth-order block (i, j) after projection and _convert_if_zero *)
 (* BNonzero: a numeric array that is not allclose to 0, or a sympy object that is decidably
